@@ -101,6 +101,73 @@ def run_model_parallel(lines, nproc=None, timeout=3600):
     return res
 
 
+BOUNDARY_BASE = "space \\s 0\nletter a 1\nletter b 2\n"
+
+
+def boundary_probes(k):
+    """rules whose compilation allocates several objects; (text, [sizes in allocation order], what).  A relocation of the
+    image at the 2nd, 3rd … allocation happens while the compiler holds pointers to the objects allocated just before."""
+    c = 0x0900 + 8 * k
+    return [("always \\x%04x 1" % c, [64, 64], "putChar in addForwardRuleWithSingleChar"),
+            ("always a %s" % G.dots_str(64 + k % 190 + 1), [64, 64], "putDots in addBackwardRuleWithSingleCell"),
+            ("letter \\x%04x %s" % (c + 1, G.dots_str(64 + (k + 50) % 190 + 1)), [64, 64, 64], "putChar/putDots/addRule in compileCharDef"),
+            ("base uppercase \\x%04x \\x%04x" % (c + 2, c + 3), [64, 64], "second putChar in base"),
+            ("grouping g%s \\x%04x\\x%04x %s,%s" % ("abcdefghijklmnopqrstuvwxyz"[k % 26] * (1 + k // 26), c + 4, c + 5,
+                                                      G.dots_str(64 + (k + 90) % 190 + 1), G.dots_str(64 + (k + 140) % 190 + 1)),
+             [64, 64, 64, 64, 72, 64, 64], "putChar/putDots/addRule in compileGrouping"),
+            ("noback match a ab%s b 1" % "ab"[k % 2], [72, 16], "pattern allocation after addRule in match")]
+
+
+def steer(slack, lo, hi):
+    """filler sizes (64 / 72 bytes) that bring the free space of the image into [lo, hi)"""
+    out = []
+    while slack >= hi:
+        if (slack - lo) % 64 >= hi - lo and slack - 72 >= lo:
+            out.append(72); slack -= 72
+        else:
+            out.append(64); slack -= 64
+    return out if lo <= slack < hi else None
+
+
+def boundary_script(base, used, size, rounds):
+    """ADD operations that make the image grow exactly at the j-th allocation of a multi-allocation rule, for every probe
+    and every j ≥ 2; Python mirrors the allocator to place 64/72-byte filler rules.  Returns (ops, expected relocations)."""
+    ops, expect = [], []
+    k = 0
+    for rnd in range(rounds):
+        for pi in range(len(boundary_probes(0))):
+            nsz = len(boundary_probes(0)[pi][1])
+            for j in range(2, nsz + 1):
+                text, sizes, what = boundary_probes(k)[pi]
+                k += 1
+                lo = sum((x + 7) // 8 * 8 for x in sizes[:j - 1])
+                hi = lo + 8 if what.startswith("pattern") else lo + (sizes[j - 1] + 7) // 8 * 8
+                fill = steer(size - used, lo, hi)
+                if fill is None:
+                    # not enough room left before the boundary: cross it with fillers first
+                    while size - used >= 64:
+                        ops.append("ADD %s %s" % (base, common.hexbytes("always a 1"))); used += 64
+                    need = used + 64
+                    size = need + need // 8
+                    ops.append("ADD %s %s" % (base, common.hexbytes("always a 1"))); used += 64
+                    fill = steer(size - used, lo, hi) or []
+                for f in fill:
+                    ops.append("ADD %s %s" % (base, common.hexbytes("always a 1" if f == 64 else "always ab 1"))); used += f
+                expect.append((len(ops), j, what, text))
+                ops.append("ADD %s %s" % (base, common.hexbytes(text)))
+                for sz in sizes:
+                    need = used + (sz + 7) // 8 * 8
+                    if need > size:
+                        size = need + need // 8
+                    used = need
+                # the real pattern size is not predicted: resynchronise with fillers is not possible, so a match probe
+                # ends a round
+                ops += ["DUMP %s nofinal" % base, "RAWDUMP %s nofinal" % base]
+                if what.startswith("pattern"):
+                    return ops, expect, True
+    return ops, expect, False
+
+
 class Snapshot:
     """one inspected state of one table list: DUMP + RAWDUMP + the allocator log so far"""
     def __init__(self, case, label, dump, raw, objs_t, objs_d, replay):
@@ -213,9 +280,61 @@ def run(tier):
         # finally the finalised image
         ops += ["DUMP %s" % base, "RAWDUMP %s" % base]
         cases.append(common.Case("add%d" % si, setup, ops, {"kind": "additions", "base": bk, "arg": arg, "texts": texts}))
+    # ---- relocation while the compiler holds pointers: steer the free space so that the image grows at the j-th allocation
+    #      of a rule that allocates several objects (the allocator is deterministic; phase 1 measures the base)
+    probe = common.Case("bprobe", ["HOOK arena 1", "TBL bb.ctb " + common.hexbytes(BOUNDARY_BASE)],
+                        ["ADD bb.ctb " + common.hexbytes("# measure")], {"kind": "probe"})
+    common.run_cases(exe, [probe], batch=1)
+    bobjs = objs_of(probe.out[0], 0) if probe.out else []
+    nb = 0
+    if bobjs:
+        hs = 0
+        used0 = None
+        # bytesUsed after the compile = header + 8 * (last offset) + ceil8(last size)
+        rawc = common.Case("bprobe2", ["TBL bb.ctb " + common.hexbytes(BOUNDARY_BASE)], ["RAWDUMP bb.ctb nofinal"], {})
+        common.run_cases(exe, [rawc], batch=1)
+        f = rawc.out[0].split(" ")
+        used0, size0 = int(f[3]), int(f[4])
+        for bi in range(2 if quick else 12):
+            base = "bb%d.ctb" % bi
+            ops = ["ADD %s %s" % (base, common.hexbytes("# compile without finalising"))]
+            # a different phase per case: some fillers first
+            used, size = used0, size0
+            for _ in range(bi * 3):
+                ops.append("ADD %s %s" % (base, common.hexbytes("always a 1"))); used += 64
+            bops, expect, _ = boundary_script(base, used, size, 4)
+            expect = [(a + len(ops), j, w, tx) for a, j, w, tx in expect]
+            ops += bops + ["DUMP %s" % base, "RAWDUMP %s" % base]
+            cases.append(common.Case("bnd%d" % bi, ["HOOK arena 1", "TBL %s %s" % (base, common.hexbytes(BOUNDARY_BASE))], ops,
+                                     {"kind": "additions", "base": "boundary", "arg": "boundary", "texts": [], "expect": expect}))
+            nb += 1
     t0 = time.time()
     common.run_cases(exe, cases, batch=1, timeout=1200)
     v.notes.append("harness phase %.1fs" % (time.time() - t0))
+    # ---- did the steered relocations happen where they were aimed?
+    hits, misses = {}, []
+    for c in cases:
+        if c.meta.get("expect") is None or c.fault:
+            continue
+        for opi, j, what, text in c.meta["expect"]:
+            if opi >= len(c.out):
+                continue
+            o = objs_of(c.out[opi], 0)
+            prev = None
+            for q in range(opi - 1, -1, -1):
+                po = objs_of(c.out[q], 0)
+                if po:
+                    prev = po[-1][2]; break
+            grown = [i + 1 for i, x in enumerate(o) if x[2] != (o[i - 1][2] if i else prev)]
+            if grown == [j] or (what.startswith("pattern") and grown == [2]):
+                hits[what] = hits.get(what, 0) + 1
+            else:
+                misses.append("%s: aimed at allocation %d of %r, image grew at %s (sizes %s)" % (c.id, j, text, grown, [x[1] for x in o]))
+    if nb:
+        v.obligation("steering: the image is relocated at the aimed allocation inside multi-allocation rules (putChar/putDots/addRule/"
+                     "pattern while the compiler holds pointers)", len(hits) >= 5 and len(misses) <= sum(hits.values()) // 4,
+                     "hits %s; misses %s" % (hits, misses[:3]))
+    dist["relocations_inside_rule"] = hits
     # ---- snapshots -> model lines
     lines, tags = [], []
     for c in cases:
@@ -305,7 +424,7 @@ def run(tier):
     v.obligation("the F6 witnesses (reference 0 embedded after an undefined grouping / swap name) are detected by checkImage",
                  bool(f6) and bool(seen_f6), "the checker did not flag the F6 witness tables")
     need = 2 if quick else 3
-    short = [c.id for c in cases if c.meta["kind"] == "additions" and not c.fault and c.meta.get("reallocs", 0) < need]
+    short = [c.id for c in cases if c.meta["kind"] == "additions" and c.meta["base"] != "boundary" and not c.fault and c.meta.get("reallocs", 0) < need]
     v.obligation("every addition sequence forces the image to grow through several reallocations", not short, "too few: %s" % short)
     v.cov["distribution"] = dist
     for c in cases:
